@@ -94,6 +94,13 @@ inline std::vector<InFile> gen_files(Tape& t, size_t maxFiles) {
 		// one later name in four extends an earlier one (possibly in another letter case): prefix-related names sit next to each other in the
 		// sorted index and are where a lookup or comparison that stops at the shorter length goes wrong
 		if (i && t.below(4) == 0) { const std::string& base = fs[t.below(fs.size())].name; if (base.size() < 40) f.name = case_variant(base, t.u8()) + t.pick<std::string>({".txt", ".old", "x", "_", "0", ".", " "}); }
+		// one later name in ten is the 'twin' of an earlier one: the same text with '{' for '[', '}' for ']' or '~' for '^' (bytes that a sloppy
+		// case fold maps onto each other); the two are different members and every lookup must keep them apart
+		if (i && t.below(10) == 0) {
+			InFile& g0 = fs[t.below(fs.size())]; size_t at = g0.name.find_first_of("{}~[]^");
+			if (at == std::string::npos && g0.name.size() < 30) { g0.name += '['; at = g0.name.size() - 1; bool c2; do { c2 = false; for (auto& g : fs) if (&g != &g0 && ieq(g.name, g0.name)) { c2 = true; g0.name.insert(0, "t"); ++at; } } while (c2); }
+			if (at != std::string::npos) { f.name = g0.name; char& ch = f.name[at]; ch = ch == '{' ? '[' : ch == '[' ? '{' : ch == '}' ? ']' : ch == ']' ? '}' : ch == '~' ? '^' : '~'; }
+		}
 		bool clash;
 		do { clash = false; for (auto& g : fs) if (ieq(g.name, f.name)) { clash = true; f.name += char('0' + i % 10); } } while (clash);
 		f.dir = dirs[t.below(4)];
